@@ -1,6 +1,6 @@
 import Iscp.Model.Rec
 import Driver.Util
-/- topic `rec` (C18): new <budget> · script o,o,.. · write hex · burst hex,hex,.. · failw · failr · deliver hex · ping · read · close · dials · logs -/
+/- topic `rec` (C18): new <budget> · script o,o,.. · write hex · burst hex,hex,.. · failw · bornfailing k (the next k incarnations are born with failing writes) · failr · deliver hex · ping · read · close · dials · logs -/
 namespace Driver.Rec
 open Iscp Iscp.Rec Driver
 
@@ -26,7 +26,8 @@ def step (s : St) (line : String) : St × String :=
   | ["gatedpair", a, b] =>
     (match bytesOfHex a, bytesOfHex b with
     | some a, some b =>
-      -- A's write is in progress when the connection breaks: the write loop redials and retries A, then serves B
+      -- A's write is in progress when the connection breaks: the write loop redials (as often as the fresh connection's
+      -- write fails again) and retries A, then serves B
       let s1 := { s with failW := true }
       let (s2, oa) := write s1 a
       let (s3, ob) := write s2 b
@@ -41,6 +42,7 @@ def step (s : St) (line : String) : St × String :=
     | none => (s, "bad-op"))
   | ["closeerr"] => (s, "ok")
   | ["failw"] => u (Iscp.Rec.step s .failW)
+  | ["bornfailing", k] => u (Iscp.Rec.step s (.bornFailing (k.toNat?.getD 0)))
   | ["failr"] => u (failRead s)
   | ["failr", _] => u (failRead s)   -- the kind of read error (anything but the peer's normal close) makes no difference
   | ["deliver", h] => (match bytesOfHex h with | some b => u (deliver s b) | none => (s, "bad-op"))
